@@ -354,8 +354,26 @@ def random_poly_case(rng, algo, max_obj, max_sp):
             continue
         lm = {g: rng.choice(gen.species_labels(ns)) for g in gen.object_labels(no)}
         ordered = SC.kind_of(algo) == "ordered"
+        named = rng.random() < 0.5
+        if named:
+            # distinctive user-given names on every ancestor (also the roots): they must survive the refinement
+            G, S = _give_names(G, "anc"), _give_names(S, "clade")
         return {"kind": "e2e", "algo": algo, "G": G, "S": S, "leafmap": lm, "costs": gen.random_cost(rng),
-                "syn": gen.random_syntenies(rng, list(lm), 3, ordered=ordered, consistent_p=1.0), "named": rng.random() < 0.5}
+                "syn": gen.random_syntenies(rng, list(lm), 3, ordered=ordered, consistent_p=1.0), "named": named}
+
+
+def _give_names(nested, prefix):
+    counter = [0]
+
+    def go(x):
+        if isinstance(x, str):
+            return x
+        d = {"name": f"{prefix}{counter[0]}"}
+        counter[0] += 1
+        d["ch"] = [go(c) for c in x]
+        return d
+
+    return go(nested)
 
 
 def replay(ctx, case):
